@@ -33,7 +33,9 @@ def scene(rng, T):
             s_, e_, iv = rng.randint(0, T // 2), rng.randint(T // 2, T), rng.choice([1, 2])
             if any(s_ <= t <= e_ and t % iv == 0 for t in range(T)):
                 return {"start_time": s_, "end_time": e_, "interval": iv}
-    return {"shape": [6, 6, 9], "spacing": 5e-8, "steps": T, "bt": rng.choice(bts), "thickness": 2,
+    # half of the scenes contain a dispersive (Lorentz) block: its polarisation buffers are time-dependent state that reset() must zero
+    blocks = [{"box": [[1, 5], [1, 5], [4, 6]], "eps": 2.25, "lorentz": {"w0": 4.0e15, "g": 1.0e14, "de": 1.5}, "name": "lor"}] if rng.random() < 0.5 else []
+    return {"shape": [6, 6, 9], "spacing": 5e-8, "steps": T, "bt": rng.choice(bts), "thickness": 2, "blocks": blocks,
             "sources": [{"kind": "plane", "axis": 2, "pos": 4, "dir": "+", "pol": [1.0, 0.5, 0.0], "switch": sw()},
                         {"kind": "dipole", "cell": [3, 3, 5], "pol": 2, "switch": sw()}],
             "detectors": [{"kind": "field", "box": [[2, 4], [2, 4], [3, 6]], "name": "fd", "switch": sw()},
